@@ -564,7 +564,13 @@ type coaLoop struct {
 	probes  int
 }
 
-func openCoALoop(ev *env) (*coaLoop, error) {
+func openCoALoop(ev *env) (*coaLoop, error) { return openCoALoopVariant(ev, "") }
+
+// openCoALoopVariant: variant "" is the usual set-up (processor over a small session table whose
+// back ends succeed); "backends-failing": the session exists but terminator, policy updater and
+// fast path updater report errors; "no-session-table": a processor nobody gave any lookup or
+// back end function; "no-handlers": the bare listener without processor.
+func openCoALoopVariant(ev *env, variant string) (*coaLoop, error) {
 	srv, err := radius.NewCoAServer(radius.CoAServerConfig{Address: "127.0.0.1:0", Secret: coaSecret}, zap.NewNop())
 	if err != nil {
 		return nil, err
@@ -577,24 +583,32 @@ func openCoALoop(ev *env) (*coaLoop, error) {
 		}
 		return &radius.SessionInfo{SessionID: id, Username: "alice", MAC: net.HardwareAddr{2, 0, 0, 0, 0, 7}, FramedIP: net.IPv4(10, 9, 0, 8), State: "active"}, true
 	}
-	p.SetSessionLookup(info)
-	p.SetSessionLookupByIP(func(ip net.IP) (*radius.SessionInfo, bool) {
-		if ip.Equal(net.IPv4(10, 9, 0, 8)) {
-			return info("live-7")
-		}
-		return nil, false
-	})
-	p.SetSessionLookupByMAC(func(m string) (*radius.SessionInfo, bool) {
-		if strings.EqualFold(m, "02:00:00:00:00:07") {
-			return info("live-7")
-		}
-		return nil, false
-	})
-	p.SetSessionTerminator(func(ctx context.Context, id string, reason uint32) error { return nil })
-	p.SetSessionPolicyUpdater(func(ctx context.Context, id string, u *radius.PolicyUpdate) error { return nil })
-	p.SetEBPFQoSUpdater(func(id string, d, u uint64) error { return nil })
-	srv.SetCoAHandler(p.HandleCoA)
-	srv.SetDisconnectHandler(p.HandleDisconnect)
+	var backendErr error
+	if variant == "backends-failing" {
+		backendErr = fmt.Errorf("map full")
+	}
+	if variant != "no-session-table" {
+		p.SetSessionLookup(info)
+		p.SetSessionLookupByIP(func(ip net.IP) (*radius.SessionInfo, bool) {
+			if ip.Equal(net.IPv4(10, 9, 0, 8)) {
+				return info("live-7")
+			}
+			return nil, false
+		})
+		p.SetSessionLookupByMAC(func(m string) (*radius.SessionInfo, bool) {
+			if strings.EqualFold(m, "02:00:00:00:00:07") {
+				return info("live-7")
+			}
+			return nil, false
+		})
+		p.SetSessionTerminator(func(ctx context.Context, id string, reason uint32) error { return backendErr })
+		p.SetSessionPolicyUpdater(func(ctx context.Context, id string, u *radius.PolicyUpdate) error { return backendErr })
+		p.SetEBPFQoSUpdater(func(id string, d, u uint64) error { return backendErr })
+	}
+	if variant != "no-handlers" {
+		srv.SetCoAHandler(p.HandleCoA)
+		srv.SetDisconnectHandler(p.HandleDisconnect)
+	}
 	// what Start does: listen, mark running, run receiveLoop on its own goroutine — here on a
 	// goroutine whose deferred guard reports a panic that unwinds the loop (process-fatal in production)
 	lc, err := net.ListenUDP("udp4", &net.UDPAddr{IP: net.IPv4(127, 0, 0, 1), Port: 0})
